@@ -188,7 +188,8 @@ def doc_lines_expected(inf):
 def c15(pid, tier, seed):
     chk = C.Check(pid, tier, seed)
     chk.rule = ("doc groups (gen/textgen.py): the same item without docs / with docs A / with docs B at one position (container, field, "
-                "variant, variant field, flattened field) in one of five forms (///, two /// lines, #[doc = ..], /** */, /** with an empty "
+                "variant, variant field, flattened field; the documented field or container alone or together with another attribute: type, as, "
+                "inline, optional, rename, serde(default), rename_all, optional_fields, tag) in one of five forms (///, two /// lines, #[doc = ..], /** */, /** with an empty "
                 "line */) over 14 hostile text classes; monitor `declinfo` parses export_to_string() with swc. Oracle: the file parses; the "
                 "declaration with comments stripped is identical within a group; container and named-field docs appear as exactly one block "
                 "comment attached to the documented node and contain every doc line; no comment is detached; for pairs of documented types "
@@ -215,10 +216,13 @@ def c15(pid, tier, seed):
             base = None
             for inf, ev in sorted(members, key=lambda m: m[0]["variant"]):
                 chk.add_eval()
-                tags = [f"pos:{inf['position']}", f"form:{inf['form']}", f"cls:{inf['cls']}", f"shape:{inf['shape']}"]
+                tags = [f"pos:{inf['position']}", f"form:{inf['form']}", f"cls:{inf['cls']}", f"shape:{inf['shape']}"] + \
+                    ([f"with:{inf['ctx']}"] if inf.get("ctx") else [])
                 if inf["cls"] != "none":
                     chk.add_distinct((inf["position"], inf["form"], inf["cls"]))
-                key_tail = f"{inf['position']}|{inf['form']}|{inf['cls']}"
+                    if inf.get("ctx"):
+                        chk.add_distinct((inf["position"], "with", inf["ctx"]))
+                key_tail = f"{inf['position']}|{inf['form']}|{inf['cls']}" + (f"|with:{inf['ctx']}" if inf.get("ctx") else "")
                 src = None
                 if ev["outcome"] != "ok":
                     chk.violation(f"C15|{ev['outcome']}|{key_tail}", f"{ev['rust']} ({inf['position']} docs {inf['text']!r} as {inf['form']}): "
